@@ -163,3 +163,62 @@ _base_scn_k = scenarios
 
 def scenarios():
     return _base_scn_k() + [key_selector(k) for k in ('string', 'signature', 'message')]
+
+
+def fingerprints_report():
+    """PGPKeyring.fingerprints(keyhalf, keytype) on a reachable state in which the key table is NOT closed under 'subkey of':
+    P (public primary; its subkey S is loaded, its subkey T was unloaded on its own), R (private primary), Q (private subkey loaded on its
+    own, its primary is not loaded). For all nine argument combinations the report is exactly the fingerprints of the table entries of
+    that half and kind - T, which is reachable through P.subkeys but is not loaded, is not reported; Q is."""
+    label = 'C19/PGPKeyring.fingerprints[key table not closed under subkeys]'
+    KEY = 'pgpy.pgp.PGPKey'
+    # name -> (is_primary, is_public, loaded)
+    SHAPE = {'P': (True, True, True), 'S': (False, True, True), 'T': (False, True, False), 'R': (True, False, True), 'Q': (False, False, True)}
+
+    def gen(repo):
+        obls, funcs, paths = [], [], 0
+        for half in ('any', 'public', 'private'):
+            for typ in ('any', 'primary', 'sub'):
+                r = scn.Run(repo, RING, 'fingerprints', '%s[%s,%s]' % (label, half, typ))
+                ex, st = r.ex, r.st
+                objs = {n: E.VObj(KEY, n) for n in SHAPE}
+                ids = {n: 1000 + i for i, n in enumerate(SHAPE)}
+                r.hook(KEY, 'is_primary', lambda ex, st, o, a: [(st, E.VBool(SHAPE[o.ref][0]))])
+                r.hook(KEY, 'is_public', lambda ex, st, o, a: [(st, E.VBool(SHAPE[o.ref][1]))])
+                r.hook(KEY, 'fingerprint', lambda ex, st, o, a: [(st, E.VStr(s='FINGERPRINT-OF-' + o.ref))])
+                r.hook(KEY, 'parent', lambda ex, st, o, a: [(st, {'S': objs['P'], 'T': objs['P']}.get(o.ref, E.VNone() if SHAPE[o.ref][0] else E.VObj(KEY, 'primary-not-loaded')))])
+                r.hook(KEY, 'subkeys', lambda ex, st, o, a: [(st, E.VDict([(E.VStr(s='kid-' + n), objs[n]) for n in (('S', 'T') if o.ref == 'P' else ())]))])
+                ring = E.VObj(RING, 'ring')
+                r.set('ring', '_keys', E.VDict([(E.VInt(ids[n]), objs[n]) for n in SHAPE if SHAPE[n][2]]))
+                r.set('ring', '_pubkeys', ex.new_list(st, [E.VInt(ids['P'])]))
+                r.set('ring', '_privkeys', ex.new_list(st, [E.VInt(ids['R'])]))
+                want = {n for n, (prim, pub, loaded) in SHAPE.items() if loaded and (half == 'any' or pub == (half == 'public')) and (typ == 'any' or prim == (typ == 'primary'))}
+                for pi, (s, v) in enumerate(r.call(ring, [], {'keyhalf': E.VStr(s=half), 'keytype': E.VStr(s=typ)})):
+                    paths += 1
+                    if isinstance(v, E.Raise):
+                        r.oblige(s, 'safety(%s)/p%d' % (v.exc.split(':')[0], pi), z3.BoolVal(False), v.where)
+                        continue
+                    if not isinstance(v, E.VSet):
+                        r.oblige(s, 'is-a-set/p%d' % pi, z3.BoolVal(False))
+                        continue
+                    conds = v.conds or [z3.BoolVal(True)] * len(v.items)
+                    known = all(isinstance(x, E.VStr) and isinstance(x.s, str) for x in v.items)
+                    r.oblige(s, 'members-are-fingerprints/p%d' % pi, z3.BoolVal(known))
+                    if not known:
+                        continue
+                    for n in SHAPE:
+                        present = z3.Or(*([c for x, c in zip(v.items, conds) if x.s == 'FINGERPRINT-OF-' + n] or [z3.BoolVal(False)]))
+                        what = 'reported' if n in want else ('not-reported(%s)' % ('not loaded' if not SHAPE[n][2] else 'other half or kind'))
+                        r.oblige(s, '%s:%s/p%d' % (n, what, pi), present if n in want else z3.Not(present))
+                res = r.result()
+                obls += res['obligations']
+                funcs = res['funcs']
+        return {'obligations': obls, 'funcs': funcs, 'paths': paths}
+    return Scenario(label, RING + '.fingerprints', gen, props=('C19',))
+
+
+_base_scn_f = scenarios
+
+
+def scenarios():
+    return _base_scn_f() + [fingerprints_report()]
